@@ -29,6 +29,7 @@ func ruleC03(c *Check) {
 	c.paramSetExact("C03.4")
 	c.fractionValidators("C03.2")
 	c.custodyBeforeRecord("C03.7")
+	c.bindOnlyWhenAbsent("C03.8")
 	c.paramGettersExact("C03.4", "KeyArbitrationTimeLimit", "KeyComplaintRetrospect", "KeySlashFraction")
 }
 
@@ -476,8 +477,8 @@ func (c *Check) custodyErrorsChecked(rule string) {
 func (c *Check) custodyBeforeRecord(rule string) {
 	n := 0
 	for f := range c.persistUnits("0x02", "ServiceBinding") {
-		var badPos token.Pos
-		bad := false
+		var badPos, latePos token.Pos
+		bad, late := false, false
 		has := false
 		for _, pa := range c.P.PathsOf(f) {
 			iSet, iIn := -1, -1
@@ -499,6 +500,21 @@ func (c *Check) custodyBeforeRecord(rule string) {
 				if iSet >= 0 && iSet < iIn {
 					bad, badPos = true, pa.RetPos
 				}
+				// once the coins are in custody the function goes on to record them: a rejecting exit after a transfer that
+				// succeeded leaves coins in the deposit account that no binding records (for a caller without a transaction
+				// to roll back: a module, the end blocker)
+				if pa.Exit == ExitRevert {
+					var last *Event
+					for _, ev := range pa.Events[iIn:] {
+						if ev.Kind == EvFact {
+							last = ev
+						}
+					}
+					own := last != nil && last.Fact.Neg && last.Fact.T.Op == "ok" && strings.Contains(last.Fact.T.String(), "SendCoinsFromAccountToModule")
+					if !own {
+						late, latePos = true, pa.RetPos
+					}
+				}
 			}
 		}
 		if !has {
@@ -510,6 +526,43 @@ func (c *Check) custodyBeforeRecord(rule string) {
 			pos = badPos
 		}
 		c.req(!bad, rule, unitConstruct(f, "custody-before-record"), pos, "the transfer into deposit custody precedes the store of the binding that records it")
+		pos = f.Body.Pos()
+		if late {
+			pos = latePos
+		}
+		c.req(!late, rule, unitConstruct(f, "no-rejection-after-custody"), pos, "no rejecting exit follows a transfer into deposit custody that succeeded (every check that can refuse the operation precedes the transfer)")
 	}
 	c.req(n >= 2, rule, "custody-and-record-functions", token.NoPos, fmt.Sprintf("%d functions both take a deposit and store the binding", n))
+}
+
+// bindOnlyWhenAbsent (C03.8): the bind message stores a binding — with the deposit it has just taken — only where no binding for
+// (service, provider) exists. Stored over an existing record (a disabled one, "bound again with new terms") the old record's
+// deposit stays in the deposit account with no binding that records it.
+func (c *Check) bindOnlyWhenAbsent(rule string) {
+	gBinding := c.getterByType("ServiceBinding")
+	var en *Entry
+	for _, e := range c.entries(rule) {
+		if e.Msg == "MsgBindService" {
+			en = e
+		}
+	}
+	if en == nil || gBinding == nil {
+		c.undecided(rule, "MsgBindService", token.NoPos, "bind entry / binding getter not found")
+		return
+	}
+	name, prov := en.Field("ServiceName"), en.Field("Provider")
+	n := 0
+	for _, e := range c.mutating(c.P.SummaryOf(en.Handler)) {
+		if !((e.Kind == "store" && e.Op == "Set" && e.Family == "0x02") || (e.Kind == "bank" && isModuleAccount(e.To, "DepositAccName"))) {
+			continue
+		}
+		n++
+		g := c.closeFacts(e.Guards)
+		_, absent := hasFact(g, fmt.Sprintf("(res 1 (%s %s %s))", gBinding.Name, name, prov), true)
+		if !absent {
+			_, absent = c.recordExistence(e.Guards, "0x02", []string{name, prov})
+		}
+		c.req(absent, rule, effConstruct("MsgBindService", e)+"#only-when-absent", e.Pos, "the bind message takes a deposit and stores the binding only under: no binding for (service, provider) exists")
+	}
+	c.req(n >= 2, rule, "MsgBindService#deposit-and-record", token.NoPos, fmt.Sprintf("%d effects (deposit transfer, binding record) of the bind message", n))
 }
